@@ -89,7 +89,7 @@ class Ref:
             if e[2] is not None:
                 return self.ev(e[2], frame, all_)
             return "{{{" + str(key) + "}}}"
-        if t in ("IF", "IFEQ", "SW"):
+        if t in ("IF", "IFEQ", "SW", "SWG"):
             return self.ctl(e, frame, all_)
         name = e[1]
         if not (all_ or selected(self.cfg, name)):
@@ -134,6 +134,8 @@ class Ref:
                 rest, head = [sub(e[2]), sub(e[3])], "#if"
             elif t == "IFEQ":
                 rest, head = [sub(e[2]), sub(e[3]), sub(e[4])], "#ifeq"
+            elif t == "SWG":
+                rest, head = list(e[2][:-1]) + [e[2][-1] + "=" + sub(e[3]), sub(e[4])], "#switch"
             else:
                 rest, head = [e[2] + "=" + sub(e[3]), "#default=" + sub(e[4])], "#switch"
             if self.variant != "keep_blank":
@@ -144,6 +146,8 @@ class Ref:
         if t == "IFEQ":
             y = self.ev(e[2], frame, True).strip()
             return addnl(self.ev(e[3] if first.strip() == y else e[4], frame, True).strip())
+        if t == "SWG":
+            return addnl(self.ev(e[3] if first.strip() in [x.strip() for x in e[2]] else e[4], frame, True).strip())
         return addnl(self.ev(e[3] if e[2].strip() == first.strip() else e[4], frame, True).strip())
 
 
